@@ -55,6 +55,23 @@ def generate_cases(run, tier):
     return uniq
 
 
+def model_check(run, tier, invariants):
+    """(M) properties of the rules themselves over TypeGen's universe, no implementation involved."""
+    d, rich, tds = {'dev': (0, False, ['E']), 'dev1': (0, False, ['E']), 'big': (0, False, ['E']),
+                    'quick': (1, False, ['I'])}.get(tier, (1, True, ['E', 'A']))
+    cfg = ('SPECIFICATION Spec\nCONSTANTS\n  Big = FALSE\n  MaxDepth = %d\n  Rich = %s\n  TagDefs = {%s}\n%sCHECK_DEADLOCK FALSE\n'
+           % (d, 'TRUE' if rich else 'FALSE', ', '.join('"%s"' % t for t in tds),
+              ''.join('INVARIANT %s\n' % i for i in invariants)))
+    res = pl.tlc.run_tlc('ModelProps', cfg, workers=8, timeout=3000, heap='6g')
+    if not res['ok']:
+        if 'is violated' in res['out']:
+            # a property of the specification itself fails: the model is wrong, not the code
+            raise pl.Machinery('model property violated:\n' + pl.tlc.error_context(res['out']))
+        raise pl.Machinery('TLC failed on ModelProps:\n' + pl.tlc.error_context(res['out']))
+    run.account(res, 'ModelProps %s depth<=%d' % (','.join(invariants), d))
+    run.notes['model_invariants'] = invariants
+
+
 def witness_cases(prop):
     out = []
     for e in pl.load_findings(prop):
@@ -66,9 +83,11 @@ def witness_cases(prop):
     return out
 
 
-def codec_check(prop, tier, seed, codecs, checks, ops, numerics='0,1', rule=None, fixtures=None):
+def codec_check(prop, tier, seed, codecs, checks, ops, numerics='0,1', rule=None, fixtures=None, model=None):
     run = pl.Run(prop, tier, seed)
     try:
+        if model:
+            model_check(run, tier, model)
         cases = generate_cases(run, tier) + witness_cases(prop)
         cpath = run.path('cases.ndjson')
         pl.write_cases(cases, cpath)
